@@ -298,6 +298,10 @@ class PymbolicToASTMapper(CachedMapper):
     def map_constant(self, expr: ScalarT) -> ast.expr:
         if isinstance(expr, bool):
             return ast.NameConstant(expr)
+        elif isinstance(expr, (int, float)) and expr < 0:
+            # Python's own ASTs have no negative constants: ast.unparse
+            # prints Constant(-3)**a as -3 ** a.
+            return ast.UnaryOp(ast.USub(), ast.Constant(-expr, None))
         else:
             return ast.Constant(expr, None)
 
